@@ -27,6 +27,7 @@ func runC09(c *core.Ctx) {
 	c.Rule("R2", "cap: worker counter incremented only under the exclusive pool lock after workerCount < workerSizeMaximum in the same hold, followed by exactly one worker spawn; exit decrements once under the lock; jobs run only in worker bodies", 2)
 	c.Rule("R3", "a worker killed by a panicking job posts a spawn-loop wake-up after its decrement", 1)
 	c.Rule("R4", "Schedule/ScheduleWithTimeout/Invoke* result and argument discipline", 4)
+	c.Rule("R6", "every lock a worker-pool function takes is released in the same mode on every return path", 3)
 	c.Rule("R5", "no spawn request is lost: the only consumers of the spawn-request channel sit in the spawn loop, and every request taken is followed (unless the pool is found closed) by a sizing pass before the next one is taken or the loop ends", 1)
 	// worker body: closure started with `go` that receives from jobQueue.GetChannel()
 	var body, spawner *ssa.Function
@@ -152,14 +153,20 @@ func runC09(c *core.Ctx) {
 			if n != 1 || len(hcall.Call.Args) != 1 || hcall.Call.Args[0] != ssa.Value(rec) {
 				return false, "the configured panic handler is not called exactly once with the recovered value"
 			}
-			onPanic := false
+			onPanic, nonNil := false, false
 			for _, m := range core.EdgeCmps(hcall.Block()) {
 				if m.Op == token.NEQ && core.IsNilConst(m.Y) && m.X == ssa.Value(rec) {
 					onPanic = true
 				}
+				if m.Op == token.NEQ && core.IsNilConst(m.Y) && core.Resolve(m.X) == core.Resolve(hcall.Call.Value) {
+					nonNil = true
+				}
 			}
 			if !onPanic {
 				return false, "the panic handler is invoked even when nothing was recovered"
+			}
+			if !nonNil {
+				return false, "the configured panic handler is called without being known non-nil: with no handler configured the deferred recover itself panics and the process dies (or the handler is skipped when one is set)"
 			}
 			return true, "deferred recover before the job call; handler(recovered) once on a panic; job called directly once per receive when non-nil"
 		}()
@@ -168,6 +175,7 @@ func runC09(c *core.Ctx) {
 	// who else invokes jobs: any dynamic call of a func() value obtained from the job queue elsewhere
 	// ---------------- R2
 	li := core.ComputeLocks(p)
+	lockBalance(c, li, "R6", funcsOfType(p, p.Worker, "DefaultWorkerPool"))
 	{
 		nInc := 0
 		for _, f := range p.Funcs {
